@@ -18,12 +18,12 @@ VARIABLES l, phase
 tvars == <<vars, l, phase>>
 Ev == Trace[l]
 
-Fresh(o, w) == /\ outcome' = o /\ watches' = w /\ parentDone' = FALSE
+Fresh(o, w) == /\ outcome' = o /\ watches' = w /\ quiet' = FALSE /\ storeCancelled' = FALSE /\ parentDone' = FALSE
                /\ timerFired' = FALSE /\ timeoutCancelled' = FALSE /\ actionCancelled' = FALSE /\ tErr' = "none"
                /\ rpc' = "check" /\ apc' = "notstarted" /\ aresult' = "nil" /\ resultCh' = <<>> /\ got' = "none" /\ ret' = "none"
                /\ finishedBeforeDeadline' = FALSE /\ hist' = <<>>
 
-TraceInit == /\ Init /\ outcome = "nil" /\ watches = FALSE /\ parentDone = FALSE /\ l = 1 /\ phase = "idle" /\ TLCSet(1, 1)
+TraceInit == /\ Init /\ outcome = "nil" /\ watches = FALSE /\ quiet = FALSE /\ parentDone = FALSE /\ l = 1 /\ phase = "idle" /\ TLCSet(1, 1)
 
 StartRun == /\ phase = "idle" /\ l <= Len(Trace) /\ Ev.op = "CtxRun" /\ Ev.outcome \in {"nil", "error"}
             /\ Fresh(Ev.outcome, Ev.watches) /\ phase' = "running" /\ UNCHANGED l
@@ -49,5 +49,5 @@ TraceSpec == TraceInit /\ [][TraceNext]_tvars
 HighWater == IF l > TLCGet(1) THEN TLCSet(1, l) ELSE TRUE
 TraceAccepted == /\ PrintT(<<"TRACE_MATCHED", TLCGet(1) - 1>>)
                  /\ TLCGet(1) = Len(Trace) + 1
-TraceView == <<outcome, watches, timerFired, timeoutCancelled, actionCancelled, tErr, rpc, apc, aresult, resultCh, got, ret, l, phase>>
+TraceView == <<outcome, watches, quiet, storeCancelled, timerFired, timeoutCancelled, actionCancelled, tErr, rpc, apc, aresult, resultCh, got, ret, l, phase>>
 =============================================================================
